@@ -255,9 +255,18 @@ def user_of(cfg):
     return User(cfg.user, auth_key=ak, priv_key=pk)
 
 
+def _engine_arg(cfg, engine_given):
+    """engine_given: True (the agent's engine id is passed), False (None is passed), "empty" (b"" is passed: also "not known")"""
+    if cfg.ver != "v3":
+        return None
+    if engine_given is True:
+        return cfg.engine
+    return b"" if engine_given == "empty" else None
+
+
 def initial_cfg(cfg, engine_given):
     """configuration the raw socket is constructed with by SnmpSession.__init__ (deferred user when no engine id)"""
-    if cfg.ver != "v3" or engine_given:
+    if cfg.ver != "v3" or engine_given is True:
         return cfg
     return rawdrv.Cfg("v3", user="", engine=b"")
 
@@ -284,7 +293,7 @@ class SyncApi:
         ver = {"v1": SnmpVersion.v1, "v2c": SnmpVersion.v2c, "v3": SnmpVersion.v3}[cfg.ver]
         if auto_version and cfg.ver != "v1":
             ver = None
-        self.session = _make_session(cm, self.rec2, sid, host, port=port, community=cfg.community, engine_id=(cfg.engine if engine_given and cfg.ver == "v3" else None),
+        self.session = _make_session(cm, self.rec2, sid, host, port=port, community=cfg.community, engine_id=_engine_arg(cfg, engine_given),
                                      user=user_of(cfg), version=ver, timeout=timeout, **kw)
         self.proxy = SockProxy(self.session._sock, self.rec2, sid, self.ctx, self.cfgref)
         self.session._sock = self.proxy
@@ -356,7 +365,7 @@ class AsyncApi:
         ver = {"v1": SnmpVersion.v1, "v2c": SnmpVersion.v2c, "v3": SnmpVersion.v3}[cfg.ver]
         if auto_version and cfg.ver != "v1":
             ver = None
-        self.session = _make_session(cm, self.rec2, sid, host, port=port, community=cfg.community, engine_id=(cfg.engine if engine_given and cfg.ver == "v3" else None),
+        self.session = _make_session(cm, self.rec2, sid, host, port=port, community=cfg.community, engine_id=_engine_arg(cfg, engine_given),
                                      user=user_of(cfg), version=ver, timeout=timeout, **kw)
         self.proxy = SockProxy(self.session._sock, self.rec2, sid, self.ctx, self.cfgref, quiet_block=True)
         self.session._sock = self.proxy
